@@ -14,6 +14,8 @@ Deterministic streams that run FIRST and identically for every seed
            on fresh clones bit for bit, leave its operands untouched and add no attributes to the objects or their ltype;
   views  : operands as strided / windowed / transposed / expanded views of larger buffers, in-place updates through a view (storage
            outside the view untouched), one storage passed as both arguments — reference: contiguous clones, bit for bit;
+  dispatch: `c05.add` = the model's `lieAdd`: spelling (+, add, pp.add, add_, pp.add_, Retr, pp.Retr), alpha, both lshapes (broadcastable or not,
+           enlarging, empty) and the width of `other` (short / exact / extra) are handled INSIDE the Lean model; same outcome class, lshape, items;
   corpus : fixed corner elements (eps-neighbourhoods, sqrt(eps), both hemispheres, pi, |w|~0, scales e^±40, translations 1e6) x fixed
            tangent vectors (zero .. angle 100, |tau| 1e6, sigma ±20) in ONE mixed-regime batched call per op: item-wise against the
            model, against the call on each item alone, the laws, and the exact adjoint / Jinvp / Jr oracles.
@@ -54,15 +56,18 @@ META = {
                     "convergence of the documented Bernoulli series)"],
     "partial": ["rounding: theorems are over exact reals; agreement of the float code within 64·eps·scale (algebraic ops), "
                 "16·eps (rotation/scale blocks), 4·sqrt(eps)·scale (translation blocks, Jinvp, Jr) is measured",
-                "Sim3 Jinvp: the model/code is the 4-term Bernoulli truncation (sim3JlInv_poly / sim3JlInv_bernoulli proved); its distance "
-                "to the true inverse Jacobian (2||ad||^6/30240/(1-(||ad||/2pi)^2)) is measured by the mpmath oracle, not proved",
+                "Sim3 Jinvp: the model/code is the 4-term Bernoulli truncation; its distance to the exact inverse left Jacobian is now a theorem for "
+                "||ad xi|| <= 1 in the row-sum norm (sim3JlInv_truncation_bound: ||P·J_l - 1|| <= ||ad||^6/7500, sim3JlInv_inverse_distance: "
+                "||P - J_l^-1|| <= ||ad||^6/4700); for 1 < ||ad|| < 2pi the documented bound 2||ad||^6/30240/(1-(||ad||/2pi)^2) is measured by the "
+                "mpmath oracle only",
                 "adjoint identity on small-angle branches: SE3 with 0<theta<=eps proved with an explicit bounded residual "
                 "(SE3_Adj_identity_taylor_partial, se3_taylor_defect_bounds); Sim3 with 0<theta<=eps or 0<|sigma|<=eps only as an exact "
                 "residual formula (Sim3_Adj_residual_partial), its size is not bounded by a theorem; the matrix-level statements "
                 "(*_exp_Adj, with Mathlib's matrix exponential) hold for every input",
                 "Jinvp as the first-order change of Log(Exp(tau)@X): proved for so3 in the form 'so3_Jl is the left Jacobian of Exp' "
-                "(so3Jl_hasDerivAt) + JlInv·Jl = 1; for se3/rxso3/sim3 the block inverses are proved, the derivative form is checked by "
-                "finite differences on the real code only",
+                "(so3Jl_hasDerivAt) + JlInv·Jl = 1 for every valid X with angle > eps (*_Jinvp_spec_valid); se3: block inverses proved here, "
+                "'se3_Jl is the derivative of Exp' is C04's se3_Exp_tangent; sim3: J_l(ad)·ad = exp(ad) - 1 for the series (sim3_JlSeries_is_left_jacobian), "
+                "the link between that series and the model's Exp is C01/C04; finite differences on the real code for all four",
                 "Jr derivative form proved for eps<theta and at x=0; on 0<theta<=eps the code returns the identity (first-order accurate)"],
 }
 
@@ -1793,6 +1798,101 @@ def run_modes(ctx: Ctx):
         ctx.fail({"stream": "modes"}, f"raises: call-order probe raised {type(ex).__name__}: {str(ex)[:200]}")
 
 
+# ----------------------------------------------------------------------------- dispatch stream: the spellings of + as ONE modelled function
+
+DISPATCH_SPELLINGS = ["+", "add", "pp.add", "add_", "pp.add_", "Retr", "pp.Retr"]
+ALL_SHAPES = SHAPES + [(3, 2), (2, 2, 1), (1, 2, 3), (4,), (2, 1, 3)]
+
+
+def run_dispatch(ctx: Ctx, n_cases: int):
+    """`c05.add` = the model's `lieAdd`: spelling, alpha, lshapes of both operands (broadcastable or not, enlarging, empty), width of
+    `other` (too short, exact, extra components) all handled INSIDE the Lean model; compared with the real call: same outcome class
+    (result / raises), same lshape, same last extent, same items."""
+    P = U.pp()
+    rng = ctx.rng
+    lines, metas = [], []
+    for ci in range(n_cases):
+        name = rng.choice(U.GROUPS)
+        dtype = rng.choice(["float64", "float64", "float32"])
+        eps, D = teps(dtype), U.dt(dtype)
+        G, A = U.GDIM[name], U.ADIM[name]
+        sp = rng.choice(DISPATCH_SPELLINGS)
+        sx, so = rng.choice(ALL_SHAPES), rng.choice(ALL_SHAPES)
+        if rng.random() < 0.6:      # mostly broadcastable pairs
+            sx, so, _ = gen_shapes(rng)
+        w = rng.choice([A - 1, A, A, A, A + 1, A + 2]) if not sp.endswith("Retr") else rng.choice([A, A, A, A + 1, A - 1])
+        alpha = rng.choice([1.0, 1.0, -1.0, 2.0, 0.5, 0.0, 3.0]) if sp in ("add", "pp.add", "add_", "pp.add_") else 1.0
+        nx, no = int(math.prod(sx)), int(math.prod(so))
+        Xr = [gen_grp_row(rng, name, eps)[0] for _ in range(nx)]
+        Or = [(gen_alg_row(rng, name, eps)[0] + [rng.uniform(-9, 9), rng.uniform(-9, 9)])[:w] for _ in range(no)]
+        Xt = torch.tensor(Xr, dtype=torch.float64).reshape(tuple(sx) + (G,)).to(D) if nx else torch.zeros(tuple(sx) + (G,), dtype=D)
+        Ot = torch.tensor(Or, dtype=torch.float64).reshape(tuple(so) + (w,)).to(D) if no else torch.zeros(tuple(so) + (w,), dtype=D)
+        case = {"stream": "dispatch", "type": name, "dtype": dtype, "spelling": sp, "shape_X": list(sx), "shape_o": list(so), "width": w,
+                "alpha": alpha, "X": Xt.double().reshape(-1, G).tolist(), "o": Ot.double().reshape(-1, w).tolist()}
+        ctx.count(f"dispatch.{sp}")
+        ctx.note_case(("dispatch", name, dtype, sp, tuple(sx), tuple(so), w - A, alpha), True)
+        # real code
+        X = P.LieTensor(Xt.clone(), ltype=U.ltype(name))
+        res, raised = None, None
+        try:
+            if sp == "+":
+                res = X + Ot
+            elif sp == "add":
+                res = X.add(Ot, alpha=alpha)
+            elif sp == "pp.add":
+                res = P.add(X, Ot, alpha)
+            elif sp == "add_":
+                res = X.add_(Ot, alpha=alpha)
+            elif sp == "pp.add_":
+                res = P.add_(X, Ot, alpha)
+            else:
+                aL = P.LieTensor(Ot, ltype=getattr(P, U.ALG[name] + "_type"))
+                res = X.Retr(aL) if sp == "Retr" else P.Retr(X, aL)
+        except Exception as ex:
+            raised = f"{type(ex).__name__}: {str(ex)[:80]}"
+        toks = [name, sp, str(len(sx))] + [str(v) for v in sx] + [str(len(so))] + [str(v) for v in so] + [str(w)]
+        nums = [eps, alpha] + [v for r in case["X"] for v in r] + [v for r in case["o"] for v in r]
+        lines.append("c05.add " + " ".join(toks) + " " + common.wire_list(nums))
+        metas.append((case, res, raised))
+    reps = ctx.driver.run(lines)
+    for rep, (case, res, raised) in zip(reps, metas):
+        name, dtype, sp = case["type"], case["dtype"], case["spelling"]
+        G, A = U.GDIM[name], U.ADIM[name]
+        st, toks = common.parse_reply(rep)
+        if st != "ok":
+            ctx.count(f"dispatch.error.{toks}")
+            if toks in ("arity", "spelling", "type") or toks.startswith("bad-"):
+                raise common.InfraError(f"dispatch op: {rep}")
+            if raised is None:
+                ctx.disagree("dispatch", case, f"{sp} {name} shapes {case['shape_X']},{case['shape_o']} width {case['width']}: model rejects ({toks}), "
+                                               f"implementation returned shape {tuple(res.shape)}")
+            continue
+        if raised is not None:
+            ctx.disagree("dispatch", case, f"{sp} {name} shapes {case['shape_X']},{case['shape_o']} width {case['width']}: implementation raised "
+                                           f"({raised}), model returns a result")
+            continue
+        vals = [float(common.from_wire(t)) for t in toks if t]
+        rank = int(vals[0])
+        shape = tuple(int(v) for v in vals[1:1 + rank])
+        last = int(vals[1 + rank])
+        data = vals[2 + rank:]
+        if not isinstance(res, U.pp().LieTensor) or tuple(res.shape) != shape + (last,):
+            ctx.fail(case, f"dispatch-shape: {sp} on lshapes {case['shape_X']},{case['shape_o']} returned {type(res).__name__} of shape {tuple(res.shape)}, "
+                           f"documented broadcast gives {shape + (last,)} ({name})")
+            continue
+        got = res.tensor().double().reshape(-1, G).tolist()
+        so_ = shape
+        Xe = torch.tensor(case["X"], dtype=torch.float64).reshape(tuple(case["shape_X"]) + (G,)).expand(so_ + (G,)).reshape(-1, G).tolist() if got else []
+        Oe = torch.tensor(case["o"], dtype=torch.float64).reshape(tuple(case["shape_o"]) + (case["width"],)).expand(so_ + (case["width"],)).reshape(-1, case["width"]).tolist() if got else []
+        for i, g in enumerate(got):
+            want = data[i * G:(i + 1) * G]
+            aeff = [case["alpha"] * v for v in Oe[i][:A]]
+            errs = retr_errfn(name, dtype, Xe[i], aeff, g)(want)
+            if bad_blocks(errs):
+                ctx.disagree("dispatch", case | {"item": {"index": i}}, f"{sp} {name} {dtype}: item {i} block errors {bad_blocks(errs)}")
+                break
+
+
 # ----------------------------------------------------------------------------- entry points
 
 def run(ctx: Ctx):
@@ -1814,6 +1914,7 @@ def run(ctx: Ctx):
     run_views(ctx)
     run_modes(ctx)
     run_corpus(ctx)
+    run_dispatch(ctx, ctx.pick(120, 2000))
     run_ops(ctx, ctx.pick(450, 7000))
     run_laws(ctx, ctx.pick(200, 5000))
     run_jinvp_oracle(ctx, ctx.pick(120, 2500))
